@@ -6,7 +6,8 @@
 # Keeps the result as /verif/seeded/<ID>-<variant>/ {patch.diff, demo files, meta.json, confirm.log}.
 ID="$1"; V="$2"
 export GOFLAGS=-mod=mod GOPROXY=off GOSUMDB=off GOTOOLCHAIN=local
-SRC=/tmp/seed/out-$ID/$V; WT=/tmp/seed/$ID; OUT=/verif/seeded/$ID-$V
+ROOT="${SEEDROOT:-/tmp/seed}"; TAG="${SEEDTAG:-}"
+SRC=$ROOT/out-$ID/$V; WT=$ROOT/$ID; OUT=/verif/seeded/$ID-$TAG$V
 [ -f "$SRC/patch.diff" ] || { echo "$ID/$V: no patch"; exit 2; }
 mkdir -p "$OUT"; LOG="$OUT/confirm.log"; : > "$LOG"
 cd "$WT" || exit 2
@@ -29,7 +30,7 @@ cp "$SRC/patch.diff" "$OUT/"; for d in $DEMOS; do cp "$d" "$OUT/$(basename $d).t
 # my check against the change: a private copy of /verif (so that work going on in /verif is not disturbed)
 # run against the scratch worktree with the change applied (equivalent to applying it to /repo)
 R_CHECK=-1; CHK=""
-VS=/tmp/verif-seed-$ID
+VS=/tmp/verif-seed$TAG-$ID
 mkdir -p $VS && rsync -a --delete --exclude build --exclude bin --exclude findings --exclude .git --exclude seeded /verif/ $VS/
 cd "$WT" && git apply "$SRC/patch.diff" && { (cd $VS && VERIF_REPO="$WT" timeout 1500 ./check $ID quick) > "$OUT/check.log" 2>&1; R_CHECK=$?; }
 cd "$WT"; git checkout -q -- . ; git clean -fdq
@@ -37,7 +38,7 @@ CHK=$(grep "violated clauses" "$OUT/check.log" | cut -c1-300)
 python3 - "$ID" "$V" "$R_CLEAN" "$R_BUILD" "$R_MUT" "$R_SUITE" "$R_CHECK" "$CHK" "$PKG" "$RUN" <<'P'
 import json,sys,os
 i,v,rc,rb,rm,rs,rk,chk,pkg,run=sys.argv[1:]
-out=f"/verif/seeded/{i}-{v}"
+out=f"/verif/seeded/{i}-{os.environ.get('SEEDTAG','')}{v}"
 notes=open(out+"/notes.md").read() if os.path.exists(out+"/notes.md") else ""
 meta={"property":i,"variant":v,"source":"independent sub-agent given only the property text and a scratch worktree",
  "demo":{"package":pkg,"run":run,"passes_without_change":rc=="0","fails_with_change":rm!="0"},
